@@ -39,7 +39,7 @@ fn main() {
             "ros-case" => props::c07::replay(&v["case"]),
             "fp-case" => props::c08::replay(&v["case"]),
             "sbf-case" | "sbf-law" => props::c0910::replay_sbf(&v["case"]),
-            "arr-case" => props::c0910::replay_arr(&v["case"]),
+            "arr-case" | "arr-far" => props::c0910::replay_arr(&v["case"]),
             "steps-arr" | "steps-rb" | "steps-arr-far" => props::c11::replay(&kind, &v["case"]),
             "derived" | "trace" | "dual" => props::c12::replay(&kind, &v["case"]),
             "ext" | "hist" => props::c13::replay(&kind, &v["case"], v["key"].as_str().unwrap_or("")),
